@@ -1,6 +1,10 @@
 package main
 
-import "time"
+import (
+	"time"
+
+	"verif/symgo/sym"
+)
 
 var properties = map[string]*Property{}
 
@@ -30,12 +34,69 @@ func init() {
 					}
 				}
 			}
+			ks := []int{1, 2}
+			if tier == "thorough" {
+				ks = []int{1, 2, 3, 4}
+			}
+			for _, k := range ks {
+				for _, mb := range [][2]int{{0, 1}, {2, 1}, {3, 2}, {4, 2}, {5, 3}} {
+					out = append(out, inst("internal/receiver", "HRecvScript", "m", mb[0], "b", mb[1], "k", k))
+				}
+			}
 			return out
 		},
+		Redirects: sym.VfsRedirects(),
 		MustReach: []string{"blockref", "literal", "end"},
 		Bounds:    "sender: target length n and basis length m up to the tier's bound, block length b, all byte contents and seeds symbolic",
 		Outside:   "files larger than the bound, the 256 KiB window/flush branch, real block lengths 700..131072",
 		Timeout:   30 * time.Minute,
+	})
+	reg(&Property{
+		ID: "C03",
+		Instances: func(tier string) []Instance {
+			var out []Instance
+			ks := []int{1, 2}
+			ms := []int{-1, 0, 2}
+			if tier == "thorough" {
+				ks = []int{1, 2, 3}
+				ms = []int{-1, 0, 1, 2, 3}
+			}
+			for _, m := range ms {
+				for _, k := range ks {
+					out = append(out, inst("internal/receiver", "HRecvArbitrary", "m", m, "k", k, "cut", -1))
+				}
+			}
+			return out
+		},
+		MustReach: []string{"commit", "commit-nonempty", "error"},
+		Redirects: sym.VfsRedirects(),
+		Bounds:    "adversarial data segment: symbolic header fields in -1..3, k tokens each a literal run of 1..2 symbolic bytes / a block reference 0..4 (valid or not) / a premature end marker, symbolic 16-byte trailer, symbolic basis of m bytes (m=-1: no basis file), symbolic seed",
+		Outside:   "MD4 collisions (ideal-hash model); segments longer than the bound; declared sizes above 64 bytes",
+		Assumptions: []string{"file-system operations go to the vfsx model (harness/internal/vfsx): rename is atomic, a pending file has a name that is not in the file list"},
+	})
+	reg(&Property{
+		ID: "C04",
+		Instances: func(tier string) []Instance {
+			var out []Instance
+			step := 3
+			k := 1
+			if tier == "thorough" {
+				step = 1
+				k = 2
+			}
+			for _, m := range []int{-1, 2} {
+				for cut := 0; cut < 16+k*6+4+16; cut += step {
+					out = append(out, inst("internal/receiver", "HRecvArbitrary", "m", m, "k", k, "cut", cut))
+				}
+				out = append(out, inst("internal/receiver", "HRecvArbitrary", "m", m, "k", k, "cut", -1))
+			}
+			return out
+		},
+		MustReach: []string{"commit", "error"},
+		Redirects: sym.VfsRedirects(),
+		Bounds:    "one regular file (new or replacing an m-byte file); stream as in C03 truncated at byte offset cut (quick: every 3rd offset; thorough: every offset, k=2); invariant checked after every file-system event",
+		Outside:   "SIGKILL of a real process; atomicity of rename(2) and uniqueness of renameio's temp names are the model's contract",
+		Assumptions: []string{"event-prefix form: the state after any prefix of the event log is what a crash at that point leaves behind"},
 	})
 	reg(&Property{
 		ID: "C15",
